@@ -1,7 +1,8 @@
 //! Shim for `parking_lot`: locks whose acquisition is *cooperative* — a thread never really blocks
 //! while holding the simulator's baton. `read`/`write`/`lock` yield first, then try; on failure the
 //! thread is marked waiting and re-tests when rescheduled. Guards announce progress on release and
-//! yield afterwards (never while unwinding). No poisoning, as in parking_lot.
+//! yield afterwards (never while unwinding). After a successful blocking acquisition there is one more
+//! preemption point *while the lock is held*, so that other threads can see the lock as taken. No poisoning, as in parking_lot.
 use std::ops::{Deref, DerefMut};
 use std::sync as s;
 
@@ -29,12 +30,16 @@ impl<T: ?Sized> RwLock<T> {
         detsim::yield_point("rwlock:read");
         let mut got = None;
         detsim::block_until("rwlock:read:wait", None, || { got = unpoison_try(self.inner.try_read()); got.is_some() });
+        // a preemption point while the lock is held: other threads can observe the lock as taken (their
+        // try_* fail, their blocking acquisitions wait) even if the critical section has no yield point of its own
+        detsim::yield_point("rwlock:read:held");
         RwLockReadGuard(got)
     }
     pub fn write(&self) -> RwLockWriteGuard<'_, T> {
         detsim::yield_point("rwlock:write");
         let mut got = None;
         detsim::block_until("rwlock:write:wait", None, || { got = unpoison_try(self.inner.try_write()); got.is_some() });
+        detsim::yield_point("rwlock:write:held");
         RwLockWriteGuard(got)
     }
     pub fn try_read(&self) -> Option<RwLockReadGuard<'_, T>> {
@@ -85,6 +90,7 @@ impl<T: ?Sized> Mutex<T> {
         detsim::yield_point("mutex:lock");
         let mut got = None;
         detsim::block_until("mutex:lock:wait", None, || { got = unpoison_try(self.inner.try_lock()); got.is_some() });
+        detsim::yield_point("mutex:held");
         MutexGuard(got)
     }
     pub fn try_lock(&self) -> Option<MutexGuard<'_, T>> {
